@@ -53,7 +53,7 @@ parts = [
          ensures=[
            ("C02+C11:a_payload_frame_goes_to_the_connection_the_identity_frame_selected",
             "final(self).handed@ == old(self).handed@ || final(self).handed@ == old(self).handed@.push((active_target@, msg))"),
-           ("C02:the_last_frame_closes_the_send_in_progress", "!msg.flags.more ==> final(self).current_send_target is None"),
+           ("C02+C11:the_last_frame_closes_the_send_in_progress_so_the_next_identity_frame_is_looked_up_afresh", "!msg.flags.more ==> final(self).current_send_target is None"),
            ("C02:an_accepted_frame_with_MORE_keeps_the_send_in_progress",
             "msg.flags.more && final(self).handed@.len() > old(self).handed@.len() ==> final(self).current_send_target == old(self).current_send_target"),
            # KNOWN FINDING: a refused MORE frame closes the send in progress and leaves the partial message on the connection
